@@ -61,7 +61,8 @@ type Expr struct {
 	// hand-written directed scenarios; such expressions are not interpreted by the model).
 	Raw string `json:"raw,omitempty"`
 	// Alt selects another notation of the same literal: integers 1 = hexadecimal, 2 = octal; booleans
-	// 1 = upper case, 2 = capitalised (keywords are case-insensitive). The value is the same.
+	// 1 = upper case, 2 = capitalised, 3 = mixed (keywords are case-insensitive); strings with bytes above 0x7f:
+	// 1 = \xNN escapes, 2 = octal escapes, one per byte. The value is the same.
 	Alt int `json:"alt,omitempty"`
 }
 
@@ -110,6 +111,27 @@ type Program struct {
 
 func quote(s string) string {
 	return strconv.Quote(s)
+}
+
+// quoteBytes writes every byte above 0x7f as an escape that denotes ONE byte: \xNN (alt 1) or \NNN (alt 2).
+// Several such escapes in a row make up one character: "caf\xc3\xa9" is "café".
+func quoteBytes(s string, alt int) string {
+	var b strings.Builder
+	b.WriteByte('"')
+	for i := 0; i < len(s); i++ {
+		c := s[i]
+		switch {
+		case c >= 0x80 && alt == 1:
+			fmt.Fprintf(&b, "\\x%02x", c)
+		case c >= 0x80:
+			fmt.Fprintf(&b, "\\%03o", c)
+		default:
+			q := strconv.Quote(string(rune(c)))
+			b.WriteString(q[1 : len(q)-1])
+		}
+	}
+	b.WriteByte('"')
+	return b.String()
 }
 
 // PrintPath renders a path as GRL text.
@@ -169,6 +191,9 @@ func PrintExpr(e *Expr) string {
 		case "float":
 			return fmtFloat(e.F)
 		case "string":
+			if e.Alt != 0 {
+				return quoteBytes(e.S, e.Alt)
+			}
 			return quote(e.S)
 		case "bool":
 			t := "false"
@@ -180,6 +205,12 @@ func PrintExpr(e *Expr) string {
 				return strings.ToUpper(t)
 			case 2:
 				return strings.ToUpper(t[:1]) + t[1:]
+			case 3: // any mix of cases is the keyword
+				b := []byte(t)
+				for i := 1; i < len(b); i += 2 {
+					b[i] = b[i] - 'a' + 'A'
+				}
+				return string(b)
 			}
 			return t
 		}
